@@ -240,3 +240,11 @@ end LA.Netlink
 /-- Outside `init`, no function of the root package writes a package-level variable, hands the address of one to a function or calls a
 sync/atomic method on one (regenerated list, see LA.Proofs.StateFacts): all state is in the object the model is given. -/
 theorem C18_state_is_in_the_object : LA.StateFacts.ofPkg "" = [] := by decide
+
+/-- What the root package reads of the process it runs in is the clock (the Reassembler's deadlines, which the model is
+given as readings), the process id (an input of SetPID) and the page size (the default receive buffer): `envReads`,
+regenerated with go/types on every run, lists the package-level functions of os, os/user, os/exec, net, runtime,
+math/rand, crypto/rand that are called, time.Now / Since / Until, file-system functions of path/filepath and process
+queries of syscall. Nothing else of the machine — processors, environment variables, files, random numbers — can
+influence what the Reassembler or the client does. -/
+theorem C18_environment_is_clock_pid_pagesize : LA.StateFacts.envOf "" = LA.StateFacts.rootEnv := by decide
